@@ -405,6 +405,11 @@ def strict(line):
     return False
 
 
+def _dont_care(b):
+    """C07: bundles inside the stale reserved-bits masks may be accepted or rejected"""
+    return (b["p"]["flags"] & 0xE218) == 0xE218 or any((c["flags"] & 0xF0) == 0xF0 for c in b["cs"])
+
+
 def _toks(line):
     toks = line.split()
     if toks and toks[0] in ("D", "R"):
@@ -450,6 +455,8 @@ def oracle(line, out, inv=None, valid=None, wf=None):
             if f is None:
                 return None
             b, says_valid, (s, d, data) = f
+            if _dont_care(b):
+                return None
             if says_valid != valid(b):
                 return "validate says %s, the rule list says %s" % (says_valid, valid(b))
             if not (eid_valid(s) and eid_valid(d)):
@@ -468,6 +475,8 @@ def oracle(line, out, inv=None, valid=None, wf=None):
             if f is None:
                 return None
             b, says_valid, pl, given = f
+            if _dont_care(b):
+                return None
             if says_valid != valid(b):
                 return "validate says %s, the rule list says %s" % (says_valid, valid(b))
             if says_valid and wf(b):
